@@ -63,7 +63,8 @@ def gen_pair(ck: Check, diffuse: bool):
     p1 = np.array([rng.uniform(-100, 100) for _ in range(d)])
     p2 = np.array([rng.uniform(-100, 100) for _ in range(d)])
     if diffuse:
-        w1, w2 = rng.uniform(0, 5), rng.uniform(0, 5)
+        # (a width of exactly 0 - a sharp interface - is valid and occurs in every run, also on one side only)
+        w1, w2 = rng.choice([0.0, rng.uniform(0, 5), rng.uniform(0, 5)]), rng.choice([0.0, rng.uniform(0, 5), rng.uniform(0, 5), rng.uniform(0, 5)])
         return d, DiffuseDroplet(p1, r1, w1), DiffuseDroplet(p2, r2, w2)
     return d, SphericalDroplet(p1, r1), SphericalDroplet(p2, r2)
 
@@ -180,7 +181,7 @@ def trees(ck: Check, n: int, leaves_max: int):
         drops = [cls(np.array([rng.uniform(-10, 10) for _ in range(d)]), 0.0 if i == zero else 10 ** rng.uniform(-1, 1)) for i in range(k)]
         if cls is DiffuseDroplet:
             for x in drops:
-                x.interface_width = rng.uniform(0, 2)
+                x.interface_width = rng.choice([0.0, rng.uniform(0, 2), rng.uniform(0, 2)])
         V = sum(x.volume for x in drops)
         M = sum(x.volume * x.position for x in drops)
         results = []
